@@ -6,6 +6,8 @@
 #include <functional>
 #include <typeinfo>
 #include <exception>
+#include <iostream>
+#include <map>
 
 struct Runner {
 	int fam = 0;
@@ -61,17 +63,19 @@ static volatile sig_atomic_t g_in_guard = 0;
 static void on_signal(int sig) { if (g_in_guard) siglongjmp(g_jmp, sig); _exit(128 + sig); }
 static void install_signal_guards() {
 	struct sigaction sa; memset(&sa, 0, sizeof sa); sa.sa_handler = on_signal; sigemptyset(&sa.sa_mask); sa.sa_flags = SA_NODEFER;
-	for (int s : {SIGFPE, SIGSEGV, SIGBUS, SIGILL, SIGABRT}) sigaction(s, &sa, nullptr);
+	for (int s : {SIGFPE, SIGSEGV, SIGBUS, SIGILL, SIGABRT, SIGALRM}) sigaction(s, &sa, nullptr);
 }
 template <class F>
 static std::string guarded(F f) {
 	int sig = sigsetjmp(g_jmp, 1);
-	if (sig != 0) { g_in_guard = 0; return "!SIG" + std::to_string(sig); }
+	if (sig != 0) { alarm(0); g_in_guard = 0; return "!SIG" + std::to_string(sig); }
 	g_in_guard = 1;
+	alarm(2);          // watchdog: an operation that does not return within seconds is reported as !SIG14 (non-termination)
 	std::string r;
 	try { r = f(); }
 	catch (const std::exception& e) { r = std::string("!") + typeid(e).name(); }
 	catch (...) { r = "!unknown"; }
+	alarm(0);
 	g_in_guard = 0;
 	return r;
 }
@@ -140,7 +144,12 @@ static std::string parse_group(int argc, char** argv, const std::string& dflt) {
 static void emit_case(Runner& r, int op, const std::vector<std::string>& a) {
 	if (op < g_op_lo || op > g_op_hi) return;
 	if (g_int_only && op != OP_from_int && op != OP_from_uint && op != OP_to_int) return;
-	std::string res = r.run(op, a);
+	// after three watchdog hits for one (configuration, operation) the remaining cases are reported as timed out
+	// without being run (each hit costs seconds)
+	static std::map<std::pair<Runner*, int>, int> hits;
+	std::string res;
+	if (hits[{&r, op}] >= 3) res = "!SIG14";
+	else { res = r.run(op, a); if (res == "!SIG14") ++hits[{&r, op}]; }
 	printf("%d %s %d ", r.fam, r.cfg.c_str(), op);
 	if (a.empty()) printf("-");
 	for (size_t i = 0; i < a.size(); ++i) printf("%s%s", i ? "," : "", a[i].c_str());
@@ -152,6 +161,9 @@ static int drv_main(int argc, char** argv) {
 #ifndef NO_SIGNAL_GUARDS
 	install_signal_guards();
 #endif
+	// the library reports some conditions on std::cerr, which is tied to std::cout: every such message would flush
+	// stdout and could block on a full pipe inside the watchdog window
+	std::cerr.tie(nullptr);
 	if (A.mode == "exh") {
 		for (auto& r : g_runners) {
 			if (!r->small) continue;
@@ -215,22 +227,25 @@ static std::string native_conv(int op, const std::vector<std::string>& a) {
 	case OP_from_f32: { T x; x = f32from((uint32_t)hexu64(a[0])); return Tr::out(x); }
 	case OP_from_int: {
 		uint64_t w = hexu64(a[0]), b = hexu64(a[1]); T x;
+		// an overload that does not exist (or is ambiguous) for this type is reported as unsupported, not guessed
+#define ASSIGN_IF(TYPE, EXPR) if constexpr (requires(T t, TYPE v) { t = v; }) { x = (TYPE)(EXPR); } else return "?unsupported"
 		switch (w) {
-		case 8: if constexpr (I8) { x = (signed char)(int8_t)b; break; } else return "?";
-		case 16: x = (short)(int16_t)b; break;
-		case 32: x = (int)(int32_t)b; break;
-		case 65: x = (long)(int64_t)b; break;
-		default: x = (long long)(int64_t)b; break;
+		case 8: if constexpr (I8) { ASSIGN_IF(signed char, (int8_t)b); break; } else return "?";
+		case 16: ASSIGN_IF(short, (int16_t)b); break;
+		case 32: ASSIGN_IF(int, (int32_t)b); break;
+		case 65: ASSIGN_IF(long, (int64_t)b); break;
+		default: ASSIGN_IF(long long, (int64_t)b); break;
 		}
 		return Tr::out(x); }
 	case OP_from_uint: {
 		uint64_t w = hexu64(a[0]), b = hexu64(a[1]); T x;
 		switch (w) {
-		case 16: x = (unsigned short)b; break;
-		case 32: x = (unsigned int)b; break;
-		case 65: x = (unsigned long)b; break;
-		default: x = (unsigned long long)b; break;
+		case 16: ASSIGN_IF(unsigned short, b); break;
+		case 32: ASSIGN_IF(unsigned int, b); break;
+		case 65: ASSIGN_IF(unsigned long, b); break;
+		default: ASSIGN_IF(unsigned long long, b); break;
 		}
+#undef ASSIGN_IF
 		return Tr::out(x); }
 	case OP_to_f64: return hex64(f64bits(double(Tr::mk(a[0]))));
 	case OP_to_f32: return hex64(f32bits(float(Tr::mk(a[0]))));
